@@ -253,7 +253,7 @@ func c02Methods(c *run.Ctx) {
 		sval := func() string {
 			return []string{"", "bob", "with space", "quote\"d", "back\\slash", "üñí", "😀", "new\nline", "tab\t"}[r.Intn(9)]
 		}
-		kind := r.Intn(9)
+		kind := r.Intn(11)
 		var field, op string
 		var args []argSpec
 		var expect func(a map[string]interface{}) interface{}
@@ -298,6 +298,15 @@ func c02Methods(c *run.Ctx) {
 			expect = func(a map[string]interface{}) interface{} {
 				return zr.Mutation.FindTrack(a["title"].(string), a["artist"].(string), a["album"].(string), a["year"].(int))
 			}
+		case 9:
+			// arguments with non-zero defaults in the schema: what the request leaves out reaches the method as the zero value
+			field = "shout"
+			args = []argSpec{{name: "word", typ: "String", val: sval()}, {name: "times", typ: "Int", val: ival() % 1000}}
+			expect = func(a map[string]interface{}) interface{} { return zr.Query.Shout(a["word"].(string), a["times"].(int)) }
+		case 10:
+			// a method found although the case of all its letters differs from the field's name
+			field = "url"
+			expect = func(a map[string]interface{}) interface{} { return zr.Query.URL() }
 		case 8:
 			field, op = "sub", "mutation"
 			args = []argSpec{{name: "a", typ: "Int", val: ival() % 100000}, {name: "b", typ: "Int", val: ival() % 100000}}
